@@ -77,6 +77,16 @@ def run(ctx):
                 open(os.path.join(root, nm, "obj", "deep", "er", "file.o"), "w").write("o\n")
             if rng.random() < 0.2:
                 os.makedirs(os.path.join(root, nm, "emptydir"), exist_ok=True)
+        prefix_pair = None
+        if t % 20 == 5 or (forced is None and rng.random() < 0.1):
+            day = rng.choice(days)
+            short, long_ = "%s.1" % day, "%s.1%d" % (day, rng.randint(0, 9))
+            for nm in (short, long_):
+                if nm not in invs:
+                    invs.append(nm)
+                    os.makedirs(os.path.join(root, nm, "tmp"), exist_ok=True)
+                    open(os.path.join(root, nm, "report"), "w").write("report of %s\n" % nm)
+            prefix_pair = (short, long_)
         strays = []
         for s in rng.sample(["stray.txt", "notes", ".hidden/x", "2024-01-09.tar"], rng.randint(0, 3)):
             p = os.path.join(root, s)
@@ -94,6 +104,10 @@ def run(ctx):
         keep_conf = rng.choice([0, 0, 1, 2, 3, 5])
         count_arg = rng.choice([None, None, 0, 1, 2, 3, 4, 20])
         running = rng.choice(invs) if invs and rng.random() < 0.55 else None
+        if prefix_pair and forced is None:
+            # DATE.1x runs while DATE.1 is still there and due to go
+            running = prefix_pair[1]
+            keep_conf, count_arg = rng.choice([1, 2]), None
         if forced is not None:
             # retention 0 removes nothing: from the configuration / the command line, with nothing running,
             # something running, a stale lock
